@@ -18,8 +18,8 @@ from .families import _emit_bins
 from .framework import Inconclusive
 
 
-def _pkg_manifest(name, sv_name):
-    feats = ", ".join(f'"{f}"' for f in corpus.SYLVIA_FEATURES)
+def _pkg_manifest(name, sv_name, features=None, with_svmon=True):
+    feats = ", ".join(f'"{f}"' for f in (corpus.SYLVIA_FEATURES if features is None else features))
     dep = f'sylvia = {{ path = "{corpus.REPO}/sylvia", features = [{feats}] }}'
     if sv_name != "sylvia":
         dep = f'{sv_name} = {{ package = "sylvia", path = "{corpus.REPO}/sylvia", features = [{feats}] }}'
@@ -33,18 +33,19 @@ path = "src/lib.rs"
 
 [dependencies]
 {dep}
-svmon = {{ path = "../../svmon" }}
-"""
+""" + ('svmon = { path = "../../svmon" }\n' if with_svmon else "")
 
 
-def verdicts(ctx, label, modules, sv_name="sylvia", mode="check", max_rounds=8):
+def verdicts(ctx, label, modules, sv_name="sylvia", mode="check", max_rounds=8, features=None, with_svmon=True):
+    """features / with_svmon: a crate that depends on the framework alone, with another feature set (svmon needs `mt`,
+    and cargo unifies features over everything one invocation builds)."""
     ws = corpus.Workspace(ctx.label)
     _emit_bins(ws, {}, {})  # make sure the workspace skeleton exists
     name = f"rc_{label}"
     d = os.path.join(ws.root, "bins", name)
     src = os.path.join(d, "src")
     os.makedirs(src, exist_ok=True)
-    corpus.write_if_changed(os.path.join(d, "Cargo.toml"), _pkg_manifest(name, sv_name))
+    corpus.write_if_changed(os.path.join(d, "Cargo.toml"), _pkg_manifest(name, sv_name, features, with_svmon))
     for m, text in modules.items():
         corpus.write_if_changed(os.path.join(src, m + ".rs"), text)
     for f in os.listdir(src):
